@@ -421,6 +421,10 @@ impl World {
                     let r = self.doms[d.unwrap()].as_mut().unwrap().insert(p, b);
                     json!(self.spec_ref(r))
                 }
+                "reserve" => {
+                    self.doms[d.unwrap()].as_mut().unwrap().reserve(op["n"].as_u64().unwrap() as usize);
+                    json!(null)
+                }
                 "bad" => {
                     // calls the documentation promises to refuse; r = 0 stands for Ref::none() (root of a rootless DOM)
                     let r = self.real(op["r"].as_i64().unwrap());
@@ -684,7 +688,10 @@ fn random_steps(w: &mut World, rng: &mut StdRng, steps: usize, uid_pool: i64, la
             if live.is_empty() && room < 1 {
                 continue;
             }
-            let op = if rng.gen_bool(0.04) {
+            let op = if rng.gen_bool(0.03) {
+                let n = [0usize, 1, 2, 16, 64, 1000][rng.gen_range(0..6)];
+                json!({"op": "reserve", "d": d + 1, "n": n})
+            } else if rng.gen_bool(0.04) {
                 // a call outside the documented preconditions: refused with a panic, nothing changes
                 let kinds = ["destroy_root", "transfer_root", "transfer_within_root", "destroy_missing", "transfer_within_missing",
                              "descendants_of_missing", "clone_missing"];
